@@ -113,7 +113,8 @@ def run(prop, tier, seed, work):
                                                  salts=(0,) if quick else (0, 1, 2))))
     um = U.merge(U.universe_maps(), U.universe_lists())
     msizes = [0, 1, 2, 9] if quick else [0, 1, 2, 8, 9, 14, 28, 110]
-    batches.append(Batch("containers", um, cases_for(prop, um, sorted(um.keys()), tier, rng, msizes, strlens[:3])))
+    tops = [s for s in sorted(um.keys()) if not s.startswith(("Leaf_", "Fix_"))]   # private leaves: nested use only
+    batches.append(Batch("containers", um, cases_for(prop, um, tops, tier, rng, msizes, strlens[:3])))
     nrand = 1 if quick else 4
     for i in range(nrand):
         ur = U.rand_universe(rng, nstructs=10 if quick else 16)
